@@ -20,7 +20,12 @@ mc/ref/c20_child.py is the code that runs there, mc/ref/c20_drivers.py the canne
  (d) every error case that a docstring documents with a named exception (all :exc: roles of the
      docstrings under lena/ were gone through; mc/ref/c20_documented.py lists what is left out and why),
      for every argument of a small pool of the documented invalid kind (about 430 calls): the call raises
-     an instance of one of the named classes. This includes error cases reached through a second
+     an instance of one of the named classes. Where the docstring speaks about the ITEMS of a container
+     argument, the invalid item is put at every place (mc/ref/c20_places.py, about 1300 calls more): in
+     the first, the second or both of two like containers, at every index, at nesting depth 0, 1, 2, in
+     lists and tuples (isclose: 5 kinds of item that are not numbers); the one non-increasing step of
+     edges at every position of every axis of 1-, 2- and 3-dimensional edges; the inconvertible item of a
+     selector container at every index, flat and nested. The table includes error cases reached through a second
      documented callable (GroupBy.fill with a context that to_string documents as unserializable: 8 kinds
      of item x 3 places in the context x 4 ways of selecting that part), run-time cases (fill, run,
      __call__, fill_into) and exceptions of a user's callable that are documented to pass through.
@@ -43,11 +48,14 @@ DESIGN_REF = "DESIGN.md section 5, C20"
 RULE = ("(a) every (subpackage, advertised name) pair counts; (b) every probe = one canned driver or one "
         "argument perturbation of it, executed in the only-own-subpackage and in the whole-framework "
         "interpreter; it is non-trivial when the element was constructed and at least one method call "
-        "returned a value, or when a LenaException subclass was raised (a documented error path ran); "
+        "returned a value, or when a LenaException subclass was raised (a documented error path ran); a "
+        "callable or argument that cannot even be looked up in the configured interpreter (AttributeError "
+        "on a lena module, an error raised inside lena) is the observed outcome 'resolve' of the probe; "
         "(c) every load site (global name, module attribute chain, lena-internal from-import) of every "
         "code object counts; it is non-trivial when it resolves in a module dictionary (not builtins) "
         "or walks at least one attribute of a module object; (d) every call of the documented-error "
-        "table counts and is non-trivial (the error path it names ran or the call is reported); every "
+        "table counts and is non-trivial (the error path it names ran or the call is reported), one call "
+        "per (documented case, invalid item, place of the item in its container argument); every "
         "except clause under lena/ whose body raises counts once and is non-trivial when a call of the "
         "table entered it. Cases are distinct by construction")
 ASSUMPTIONS = [
@@ -67,7 +75,13 @@ ASSUMPTIONS = [
     "when the docstring of the called object names the exception, or hands the argument to another lena "
     "callable whose docstring names it (GroupBy.fill -> to_string; Filter -> Selector); invalid values are "
     "small pools (e.g. unserializable context items: set, frozenset, plain object, bytes, complex, "
-    "function, Decimal, range - as a value, in a nested dictionary, in a list); not in the table: ROOT "
+    "function, Decimal, range - as a value, in a nested dictionary, in a list); placement axis: for "
+    "isclose, check_edges_increasing/histogram edges, and the selector containers of Filter/MapBins the "
+    "invalid item stands at every leaf of 7 nested shapes (depth <= 3, length <= 3) / every step of every "
+    "axis (dimension <= 3, length <= 4) / every index of containers of length <= 3 (flat and once nested), "
+    "everything else in the case being valid and equal on both sides, so that every evaluation order has "
+    "to reach it; mismatching dimensions are not judged (isclose: 'dimensions are not checked'); "
+    "not in the table: ROOT "
     "elements, Cache.drop_cache, deprecated GroupPlots/_GroupBy, external programs. The list of raising "
     "except clauses entered by the table is a measurement (sys.settrace line events), not a verdict",
     "numpy and ROOT are absent: NumpyHistogram is probed only up to its ImportError; the ROOT elements "
@@ -80,7 +94,7 @@ ASSUMPTIONS = [
     "module-level names); attribute chains are followed only through module objects and only lena "
     "modules are judged; names reached through getattr()/globals() strings are not seen",
 ]
-NONTRIVIAL_FLOOR = {"quick": 4200, "thorough": 20000}
+NONTRIVIAL_FLOOR = {"quick": 5400, "thorough": 21000}
 BUDGET_S = {"quick": 240, "thorough": 1500}
 
 CHILD = os.path.join(core.VERIF, "mc", "ref", "c20_child.py")
@@ -92,12 +106,14 @@ def describe(tier):
         return ("9 only-X configurations vs whole framework in alphabetical and in reverse import order; "
                 "%d canned driver entries; single-argument perturbations with a pool of %d values and "
                 "all argument pairs with a pool of %d values; every load site of every file under lena/; "
-                "the table of documented error cases (all :exc: roles of the docstrings gone through)"
+                "the table of documented error cases (all :exc: roles of the docstrings gone through), "
+                "with the invalid item of a container argument at every place (argument, index, depth <= 3)"
                 % (len(drivers.ENTRIES), len(drivers.POOL_THOROUGH), len(drivers.POOL_PAIRS)))
     return ("9 only-X configurations vs whole framework (alphabetical import order); %d canned driver "
             "entries; single-argument perturbations with a pool of %d values; every load site of every "
             "file under lena/; the table of documented error cases (all :exc: roles of the docstrings "
-            "gone through)" % (len(drivers.ENTRIES), len(drivers.POOL_QUICK)))
+            "gone through), with the invalid item of a container argument at every place (argument, "
+            "index, depth <= 3)" % (len(drivers.ENTRIES), len(drivers.POOL_QUICK)))
 
 
 # ------------------------------------------------------------------------------------------------
@@ -157,9 +173,11 @@ def run_documented(res, only_case=None):
                     res.case(nontrivial=True, outcome=("documented", e["doc"], i, got))
                     res.count("d_documented_error_cases")
                     if not ok:
-                        res.violation(case, got, "raises " + " or ".join(e["exc"]),
-                                      {"law": "documented-error", "doc": e["doc"].split(" ")[0],
-                                       "observed": got if got.startswith("raised") else "returned"})
+                        cause = {"law": "documented-error", "doc": e["doc"].split(" ")[0],
+                                 "observed": got if got.startswith("raised") else "returned"}
+                        if e.get("place"):
+                            cause["place"] = e["place"]     # placement axis (mc/ref/c20_places.py)
+                        res.violation(case, got, "raises " + " or ".join(e["exc"]), cause)
         finally:
             os.chdir(cwd)
     if only_case is not None:
@@ -554,7 +572,9 @@ LEVEL_TEXT = ("bounded exhaustive exploration over import configurations and pro
               "executed on the real code in both configurations; every load site (global name, module "
               "attribute chain, from-import) of every code object of every file under lena/ resolved "
               "on the real module objects; every error case that a docstring documents with a named "
-              "exception (about 430 calls, also through a second documented callable and at run time), "
+              "exception (about 430 calls, also through a second documented callable and at run time; about "
+              "1300 more that put the invalid item of a container argument at every place: which argument, "
+              "which index, which nesting depth, list or tuple), "
               "with the raising except clauses of lena/ that these calls enter measured")
 LEVEL_NOTE = ("part (c) enumerates all load sites on the live interpreter state instead of all paths (the "
               "property's own quantifier: 'checked statically against module scope and builtins'); "
